@@ -7,6 +7,57 @@ SERVER = "tftpd::server::Server"
 CONFIG = "tftpd::config::Config"
 
 
+def counting_loop(R, fid, h):
+    """`let mut i = a; while i < b { ...; i += 1 }`: a local of the loop's frame that starts at a constant, is incremented by
+    exactly 1 once per iteration and has no other write, and whose test `i < b` is the loop's continue condition.
+    Returns (start value, end value) or None"""
+    eng = R.eng
+    g = R.g
+    body = eng.frame_bodies.get(fid)
+    if body is None or h not in body.loops:
+        return None
+    ln = R.loop_nodes(fid, h)
+    outside = set(g.succ) - ln
+    M = eng.loop_cache.get((fid, h), {}).get("M", set())
+    for (root, path) in M:
+        if root[0] != "L" or root[1] != fid or path != ():
+            continue
+        ps = eng.sym_ids.get(("phi", fid, h, root, ()))
+        if ps is None:
+            continue
+        incs, other, inits = set(), set(), []
+        for (node, wr, wp, v) in eng.writes_log:
+            if wr != root or wp != ():
+                continue
+            if node not in ln:
+                inits.append(v)
+            elif isinstance(v, tuple) and v and v[0] == "i" and v[1] == (1, ((ps, 1),)):
+                incs.add(node)
+            elif isinstance(v, tuple) and v and v[0] == "i" and v[1] == (0, ((ps, 1),)):
+                pass
+            else:
+                other.add(node)
+        if not incs or other or not inits or not all(v[0] == "i" and not v[1][1] for v in inits) or len(set(v[1][0] for v in inits)) != 1:
+            continue
+        if g.on_cycle_avoiding((fid, h), avoid_nodes=incs | outside):
+            continue    # an iteration can skip the increment
+        end = None
+        for edge, conds in eng.edge_conds.items():
+            if edge[0] not in ln or edge[0][0] != fid:
+                continue
+            for c in conds:
+                if c[0] == "bool" and c[1][0] == "cmp":
+                    op, a, b, truth = c[1][1], c[1][2], c[1][3], c[2]
+                    stays = edge[1] in ln
+                    if a == (0, ((ps, 1),)) and ((op == "Lt" and truth and stays) or (op == "Ge" and not truth and stays)):
+                        end = b
+                    elif b == (0, ((ps, 1),)) and ((op == "Gt" and truth and stays) or (op == "Le" and not truth and stays)):
+                        end = a
+        if end is not None:
+            return (inits[0], ("i", end, None))
+    return None
+
+
 def repeat_loops(R):
     """loops `for _ in a..b` (or `(a..b).for_each / try_for_each(..)`) that contain a socket send:
     [(fid, h, (start value, end value) or None, nodes of the loop)]"""
@@ -32,6 +83,8 @@ def repeat_loops(R):
                         rng = (sub.get((0,)), sub.get((1,)))
                 if rng is None:
                     continue
+            elif counting_loop(R, fid, h) is not None:
+                rng = counting_loop(R, fid, h)
             else:
                 # iteration protocol: Range<int>::next in the loop's own frame, inside the loop
                 nexts = [e for e in R.events if e.ctx == fid and e.bb in eng.frame_bodies[fid].loops[h] and
